@@ -8,52 +8,57 @@ import (
 
 // Cfg selects the constructs a generated program may use.
 type Cfg struct {
-	Items      int  // statements per list (upper bound)
-	MaxDepth   int
-	Ifs        bool
-	Ranges     bool
-	Vars       bool // := and = statements, shadowing, captures
-	Blocks     bool // block definitions, yields, content
-	MultiFile  bool // extends chains and imports
-	Includes   bool
-	Try        bool
-	Fails      bool // failing actions (inside try when Try is set, else at most one ending the execution)
-	FailAnywhere bool // a failing action may appear outside try
-	Ctx        bool // explicit contexts on yield/include/block
-	CondKinds  bool // non-bool condition values
-	RangeErrs  bool // two-variable range over index-less rangers (an error)
+	Items           int // statements per list (upper bound)
+	MaxDepth        int
+	Ifs             bool
+	Ranges          bool
+	Vars            bool // := and = statements, shadowing, captures
+	Blocks          bool // block definitions, yields, content
+	MultiFile       bool // extends chains and imports
+	Includes        bool
+	Try             bool
+	Fails           bool // failing actions (inside try when Try is set, else at most one ending the execution)
+	FailAnywhere    bool // a failing action may appear outside try
+	Ctx             bool // explicit contexts on yield/include/block
+	CondKinds       bool // non-bool condition values
+	RangeErrs       bool // two-variable range over index-less rangers (an error)
 	IncludeIfExists bool
-	ExecNoReturn bool
+	ExecNoReturn    bool
+	// CondOpaques are extra condition expressions the model only knows the truthiness of
+	// (e.g. variables holding floats or narrow ints supplied through RunOpts.ExtraVars).
+	CondOpaques []Opaque
+	SharedNames bool // block bodies and callers declare locals of the same name around yield content
+	IncludeLoop bool // include with a name computed from a loop variable
 }
 
 type blockInfo struct {
-	name   string
-	params []Param
+	name        string
+	params      []Param
 	usesContent bool
 }
 
 type gen struct {
-	r      *rand.Rand
-	cfg    Cfg
-	n      int
-	frames [][]string // visible variable names (innermost last)
-	kinds  map[string]Kind
-	ctx    int // 0 nil, 1 string, 2 record, -1 unknown but printable, -2 must not be read
-	p      *Program
-	file   *File
-	blocks []blockInfo // block names yieldable from the current file when executed in the current family
-	inBlock int
+	r         *rand.Rand
+	cfg       Cfg
+	n         int
+	frames    [][]string // visible variable names (innermost last)
+	kinds     map[string]Kind
+	ctx       int // 0 nil, 1 string, 2 record, -1 unknown but printable, -2 must not be read
+	p         *Program
+	file      *File
+	blocks    []blockInfo // block names yieldable from the current file when executed in the current family
+	inBlock   int
 	inContent int
-	inCB   int // inside the body of a block that uses content (or content nested in it)
-	lists  []string // names of list-valued root variables
-	listFl map[string]Flavor
-	nfail  int
-	inTry  int
-	feat   map[string]bool
-	chanUsed map[string]bool
-	incDepth int
-	incFiles []string
-	mainRoot bool // generating the body of the root template of the executed chain
+	inCB      int      // inside the body of a block that uses content (or content nested in it)
+	lists     []string // names of list-valued root variables
+	listFl    map[string]Flavor
+	nfail     int
+	inTry     int
+	feat      map[string]bool
+	chanUsed  map[string]bool
+	incDepth  int
+	incFiles  []string
+	mainRoot  bool // generating the body of the root template of the executed chain
 }
 
 func (g *gen) tok(prefix string) string {
@@ -316,6 +321,10 @@ func (g *gen) rootRead(n string) Expr {
 }
 
 func (g *gen) cond() Expr {
+	if len(g.cfg.CondOpaques) > 0 && g.r.Intn(3) == 0 {
+		g.feat["cond-opaque"] = true
+		return g.cfg.CondOpaques[g.r.Intn(len(g.cfg.CondOpaques))]
+	}
 	if g.cfg.CondKinds {
 		switch g.r.Intn(9) {
 		case 0:
@@ -588,6 +597,13 @@ func (g *gen) yieldStmt(depth int) []Node {
 		y.Content = append([]Node{&Text{S: "<c:"}}, append(g.list(depth+1), &Text{S: ">"})...)
 		g.inContent--
 		g.ctx = saveCtx
+		if g.cfg.SharedNames && g.r.Intn(2) == 0 {
+			// the caller and the block both declare a local called sv1/sv2; the content must see the caller's
+			sv := g.pick([]string{"sv1", "sv2"})
+			y.Content = append(y.Content, &Text{S: "[" + sv + "="}, &Print{E: Var{sv}}, &Text{S: "]"})
+			g.feat["shared-name-content"] = true
+			return []Node{&Let{Names: []string{sv}, Es: []Expr{Lit{Str(g.tok("caller"))}}}, y}
+		}
 	}
 	return []Node{y}
 }
@@ -632,6 +648,24 @@ func (g *gen) tryStmt(depth int) *Try {
 func (g *gen) includeStmt() []Node {
 	if len(g.incFiles) == 0 {
 		return nil
+	}
+	if g.cfg.IncludeLoop && len(g.incFiles) > 1 && g.r.Intn(3) == 0 {
+		// the same include action is executed with a different computed name in every iteration
+		g.feat["include-loop"] = true
+		names := append([]string{}, g.incFiles...)
+		g.r.Shuffle(len(names), func(i, j int) { names[i], names[j] = names[j], names[i] })
+		lv := g.tok("nl")
+		var vals []Value
+		pre := []Node{}
+		for _, n := range names {
+			vals = append(vals, Str(n))
+			pre = append(pre, &Let{Names: []string{"iv_" + famKey(n)}, Es: []Expr{Lit{Str(g.tok("iv"))}}})
+			g.declare("iv_"+famKey(n), KMap)
+		}
+		g.p.Vars[lv] = List(FlSliceStr, vals...)
+		kv := g.tok("v")
+		rg := &Range{Form: 2, K: g.tok("v"), V: kv, Subj: Var{lv}, Body: []Node{&Text{S: "<incl:"}, &Include{Name: Var{kv}}, &Text{S: ">"}}}
+		return append(pre, rg)
 	}
 	g.feat["include"] = true
 	target := g.pick(g.incFiles)
@@ -715,6 +749,11 @@ func (g *gen) blockDef(b blockInfo, depth int) *BlockDef {
 	}
 	body = append(body, g.list(depth+1)...)
 	if b.usesContent {
+		if g.cfg.SharedNames && g.r.Intn(2) == 0 {
+			sv := g.pick([]string{"sv1", "sv2"})
+			body = append(body, &Let{Names: []string{sv}, Es: []Expr{Lit{Str(g.tok("blocklocal"))}}}, &Text{S: "[" + sv + "="}, &Print{E: Var{sv}}, &Text{S: "]"})
+			g.feat["shared-name-block"] = true
+		}
 		body = append(body, &YieldContent{})
 		body = append(body, g.list(depth+1)...)
 	}
